@@ -25,7 +25,9 @@ COMBOS = [("Smooth", "UnitSquare"), ("Smooth", "PiSquare"), ("Singular", "UnitSq
     [(p, d) for p in ("Dirichlet", "MildSingular") for d in ("UnitSquare", "PiSquare", "LShape", "Circle")]
 CFG_M = "CONSTANTS MaxIter = 2\nSPECIFICATION Spec\nINVARIANT DefaultsRun\nINVARIANT ResidualAfterSolve\nINVARIANT RejectedFailEarly\nINVARIANT ProtocolFixed\nINVARIANT ProtocolPrefix\nCHECK_DEADLOCK FALSE\n"
 CFG_D = "CONSTANTS MaxIter = 1\nSPECIFICATION Spec\nINVARIANT AnyFlagsRun\nCHECK_DEADLOCK FALSE\n"
-CFG_S = "CONSTANTS MaxRuns = 3\nKeyHasProblem = TRUE\nInlineAtStart = TRUE\nSPECIFICATION Spec\nINVARIANT OwnData\nINVARIANT NoForeignFile\nCHECK_DEADLOCK FALSE\n"
+CFG_S = ("CONSTANTS MaxRuns = 3\nKeyHasProblem = TRUE\nInlineAtStart = TRUE\nDomains = {\"UnitSquare\", \"LShape\"}\nQuads <- QuadSet\n"
+         "SPECIFICATION Spec\nINVARIANT OwnData\nINVARIANT OwnEstimates\nINVARIANT NoForeignFile\nCHECK_DEADLOCK FALSE\n")
+MC_S = "---- MODULE MCSessions ----\nEXTENDS Sessions\nQuadSet == {<<5, \"3_5_5\">>, <<3, \"3_5_5\">>, <<5, \"1_3_3\">>}\n====\n"
 CFG_T = "CONSTANTS MaxIter = 1\nSPECIFICATION TSpec\nINVARIANT Report\nPOSTCONDITION Done\nCHECK_DEADLOCK FALSE\n"
 
 
@@ -78,17 +80,17 @@ def run(prop, tier, seed):
                      ("Dirichlet", "LShape", 1, "Singular"), ("MildSingular", "PiSquare", 1, "Smooth")]
     for p, d, exact, prior in sessions:
         jobs.append(("session", p, d, exact, prior))
-    rs = tlc.run_tlc("Sessions", CFG_S, timeout=900)
+    rs = tlc.run_tlc("MCSessions", CFG_S, timeout=900, aux_files={"MCSessions.tla": MC_S})
     model["sessions_tlc"] = rs.stats()
     if rs.machinery_error:
         ctx.machinery_error("Sessions.tla: " + rs.machinery_error)
     elif not rs.ok:
         ctx.violation("model:Sessions:%s" % rs.violated, "Sessions.tla violates %s" % rs.violated, {"tlc_output_tail": rs.output[-2000:]})
-    rs2 = tlc.run_tlc("Sessions", CFG_S.replace("InlineAtStart = TRUE", "InlineAtStart = FALSE"), timeout=900)
+    rs2 = tlc.run_tlc("MCSessions", CFG_S.replace("InlineAtStart = TRUE", "InlineAtStart = FALSE"), timeout=900, aux_files={"MCSessions.tla": MC_S})
     model["sessions_tlc_files_for_V"] = rs2.stats()
     if not rs2.ok and not rs2.machinery_error:
         ctx.violation("model:Sessions:files:%s" % rs2.violated, "Sessions.tla (matrix files) violates %s" % rs2.violated, {"tlc_output_tail": rs2.output[-2000:]})
-    rsd = tlc.run_tlc("Sessions", CFG_S.replace("KeyHasProblem = TRUE", "KeyHasProblem = FALSE"), timeout=900)
+    rsd = tlc.run_tlc("MCSessions", CFG_S.replace("KeyHasProblem = TRUE", "KeyHasProblem = FALSE"), timeout=900, aux_files={"MCSessions.tla": MC_S})
     model["sessions_key_without_problem"] = "OwnData violated (as it must be)" if rsd.violated == "OwnData" else "NOT violated"
     if rsd.violated != "OwnData" and not rsd.machinery_error:
         ctx.machinery_error("Sessions.tla is insensitive to the cache key (diagnostic configuration not violated)")
@@ -100,9 +102,15 @@ def run(prop, tier, seed):
     if not quick:
         loops += [("Smooth", "PiSquare", 0, "anisotropic", "hierarchical", 1, 3, 0, 1), ("Singular", "UnitSquare", 1, "isotropic", "sobolev", 1, 3, 1, 0),
                   ("Dirichlet", "Circle", 0, "uniform", "sobolev", 1, 2, 0, 0), ("MildSingular", "LShape", 1, "anisotropic", "sobolev-l2", 0, 4, 0, 0)]
+    est_sessions = [[("Dirichlet", "UnitSquare", 0, "5355", 1), ("Dirichlet", "UnitSquare", 0, "5355", 1), ("Dirichlet", "UnitSquare", 0, "3355", 0),
+                     ("MildSingular", "UnitSquare", 0, "5355", 1), ("Dirichlet", "UnitSquare", 0, "5133", 1)],
+                    [("Smooth", "UnitSquare", 1, "5355", 0), ("Singular", "UnitSquare", 1, "5355", 0), ("Smooth", "UnitSquare", 1, "5355", 1)]]
     with ThreadPoolExecutor(max_workers=14) as ex:
+        fsess = [ex.submit(loop_lib.run_session, s_) for s_ in est_sessions]
         floop = [ex.submit(loop_lib.run_loop, *a) for a in loops]
         results = list(ex.map(worker, jobs))
+        for f in fsess:
+            results.append(f.result())
         for f in floop:
             a, rr = f.result()
             results.append((("loop",) + tuple(a), [r for r in rr if r["k"] != "mesh"]))
